@@ -420,6 +420,24 @@ def r6_transfer_before_forward(ctx):
             k.endswith("transfer_resource_ownership") for k in rec.get("Function", [])) and any(k.endswith("HashMap::insert") for k in rec.get("Resource", []))
     ctx.check(okrec, R, ENV + "::transfer_resource_ownership|recursion", "the walker records Resource handles and recurses into Tuple fields and Function captures",
               "the ownership walker no longer reaches handles nested in tuples or closures")
+    # ... and it does so for EVERY tuple and closure: with the value's variant fixed to Tuple (Function), no path returns without entering the loop
+    # over its elements (a "seen this tuple type without a handle before, skip it" memo is unsound — the type id does not decide what an optional
+    # slot, a closure field or a generic list holds this time)
+    wb = F.body(ENV + "::transfer_resource_ownership")
+    variants = [v["name"] for v in F.adt(val)["variants"]]
+    vparam = wb.param_by_type(lambda ty: ty.startswith("&") and ty.endswith("value::Value"), what="value parameter")
+    selfcalls = [bi for bi, t in wb.calls() if (t.get("callee") or "").endswith("Environment::transfer_resource_ownership")]
+    nexts = [bi for bi, t in wb.calls() if (t.get("callee") or "").endswith("Iterator::next")]
+    for v in ("Tuple", "Function"):
+        heads = [h for h in nexts if any(wb.dominates(h, c) and wb.reaches(c, h) for c in selfcalls)]
+        # loop headers that belong to this variant's arm: reachable with the discriminant forced to v
+        idx = variants.index(v)
+        arm_heads = [h for h in heads if explore(wb, [(0, {("d", vparam): idx})], want="target", targets=[h]) is not None]
+        skip = explore(wb, [(0, {("d", vparam): idx})], avoid=arm_heads, stop=err_blocks(wb) | diverging_blocks(wb), want="return") if arm_heads else [0]
+        ctx.check(bool(arm_heads) and skip is None, R, ENV + "::transfer_resource_ownership|every-%s-walked" % v.lower(),
+                  "every %s value is walked element by element (no path around the loop)" % v,
+                  "the ownership walker can return for a %s value without visiting its elements (%s): a handle inside is not transferred — the sender "
+                  "stays its owner, the receiver is refused" % (v, path_desc(wb, skip) if isinstance(skip, list) and len(skip) > 1 else "no element loop"), wb.loc(0))
 
 
 def r7_cleanup_reach(ctx):
